@@ -508,6 +508,10 @@ Proof.
   - eapply (sim_bind eq); [apply dec_bytes_sim; exact Hs|].
     intros v sb1 ? sa1 <- Hs1 Hf1 Hk1; cbv beta iota.
     destruct v; try reflexivity. apply sim_ok; auto.
+  - (* BigDecimal *)
+    eapply (sim_bind eq); [apply dec_string_sim; exact Hs|].
+    intros v sb1 ? sa1 <- Hs1 Hf1 Hk1; cbv beta iota.
+    destruct v; try reflexivity. destruct (BigDec.bd_parse bs); [apply sim_ok; auto | reflexivity].
   - (* DateTime<FixedOffset> *)
     fold b_ops a_ops.
     eapply (sim_bind eq); [apply dec_ndt_sim; exact Hs|].
